@@ -366,3 +366,41 @@ def write_gentables(text):
         with open(path, "w") as f:
             f.write(text)
     return path
+
+
+# ---------------------------------------------------------------------------------------------- templates (C19)
+_TOK = re.compile(r"""'[A-Za-z_]\w*|[A-Za-z_]\w*|::|"(?:[^"\\]|\\.)*"|\d\w*|\S""")
+
+
+def tokenize(text):
+    return _TOK.findall(text)
+
+
+def generate_templates():
+    """GenTemplates.v: every quote!/parse_quote! template of sylvia-derive/src as a token list."""
+    matches, templates, diags = fetch_tables()
+    if len(templates) < 200:
+        raise TranslateError("only %d quote! templates found in sylvia-derive/src (expected several hundred)" % len(templates))
+    items = []
+    for key, kind, toks in templates:
+        ts = tokenize(toks)
+        try:
+            items.append("(%s, %s)" % (common.coq_string(key), common.coq_list([common.coq_string(t) for t in ts])))
+        except ValueError:
+            # non-ASCII inside a template (messages): keep the ASCII skeleton
+            ts = [t if all(32 <= ord(c) <= 126 for c in t) else "<non-ascii>" for t in ts]
+            items.append("(%s, %s)" % (common.coq_string(key), common.coq_list([common.coq_string(t) for t in ts])))
+    text = "\n".join([
+        "(* GENERATED on every run by py/verif/translate.py from /repo/sylvia-derive/src. Do not edit. *)",
+        "From Coq Require Import String List.", "Import ListNotations.", "Open Scope string_scope.",
+        "Definition templates : list (string * list string) :=", "  [" + ";\n   ".join(items) + "].", ""])
+    return text, len(templates)
+
+
+def write_gentemplates(text):
+    path = os.path.join(COQ, "theories", "Model", "GenTemplates.v")
+    old = open(path).read() if os.path.exists(path) else None
+    if old != text:
+        with open(path, "w") as f:
+            f.write(text)
+    return path
